@@ -41,6 +41,8 @@ CHECKS = {
             "unregulated port-IDs (regulated ranges belong to C05)"),
     "C15": ("R-path oracle (identity parsed from the path by the harness) over a matrix of 14 target/root designations with cwd changes; agreement of all succeeding designations; malformed names must be rejected",
             "exotic numerals accepted by int() are reported, not judged; undocumented mixed designations may fail"),
+    "C19": ("differential monitor: baseline read vs re-read after replacing/adding definitions outside the R-resolve closure; outcome signature and @print log compared; audit hook records opened files",
+            "file names stay valid"),
 }
 
 NOT_YET = {
